@@ -142,11 +142,17 @@ def _errclass(err):
     return err[:20]
 
 
+import re  # noqa: E402
+
+_ADDR = re.compile(r" at 0x[0-9a-fA-F]+")
+
+
 def short(v, n=80):
     try:
         s = repr(v)
     except Exception:  # noqa: BLE001
         s = "<unreprable>"
+    s = _ADDR.sub(" at 0x..", s)  # object addresses would make messages differ between runs
     return s if len(s) <= n else s[:n] + "..."
 
 
